@@ -31,13 +31,18 @@ from harness import c12_models as MM  # noqa: E402
 def gen_spec(rng):
     return {'seed': rng.randrange(10 ** 9), 'na': rng.choice([0, 1, 1]), 'ncomp': rng.choice([2, 3, 4]),
             'beta_a': [rng.choice([1, 2]), rng.choice([1, 2])], 'norm_ya': rng.choice([None, 'linear(0.5, 1)', 'minmax']),
-            'listing': rng.random() < 0.5}
+            'listing': rng.random() < 0.5, 'norm_x1': rng.choice([None, 'minmax', 'zscore']), 'dist_yb': rng.random() < 0.7}
 
 
 def build_named_system(spec):
     """chain/diamond of components whose models are importable by name (so that the YAML file can be loaded)"""
-    x0, x1, x2 = Variable('x0', domain=(0.0, 1.0)), Variable('x1', domain=(-1.0, 1.0)), Variable('x2', domain=(0.0, 2.0))
-    ya = Variable('ya', domain=(1.1, 1.4), norm=spec['norm_ya']); yb = Variable('yb', domain=(0.2, 0.6))
+    # variables with every kind of attribute: a distribution whose implied domain differs from the explicit one (x1: the 3-sigma
+    # range of N(0, 0.5) would be (-1.5, 1.5)), nominal / units / description, a coupling variable with a distribution (yb)
+    x0 = Variable('x0', domain=(0.0, 1.0), distribution='U(0, 1)', nominal=0.25, units='m', description='first input')
+    x1 = Variable('x1', domain=(-1.0, 1.0), distribution='N(0, 0.5)', norm=spec.get('norm_x1'))
+    x2 = Variable('x2', domain=(0.0, 2.0), tex='$x_2$', category='calibration')
+    ya = Variable('ya', domain=(1.1, 1.4), norm=spec['norm_ya'])
+    yb = Variable('yb', domain=(0.2, 0.6), distribution='N(0.4, 0.05)' if spec.get('dist_yb', True) else None)
     yc = Variable('yc', domain=(0.0, 6.0)); yd = Variable('yd')
     sg = lambda: SparseGrid(**{'opt_args': {'locally_biased': False, 'maxfun': 60}})   # noqa: E731
     comps = [Component(MM.m_a, inputs=[x0, x1], outputs=[ya], name='ca', vectorized=True, model_fidelity=(1,) * spec['na'],
